@@ -34,8 +34,8 @@ def boundary_vectors(ctx):
     import random
     rng = random.Random(ctx.seed)
     out = []
-    for n in (4, 5, 8, 10, 20, 25, 40, 50, 100, 125, 200, 250, 500):
-        ks = [k for k in range(1, n) if (k * 1000) % n == 0]
+    for n in list(range(2, 65)) + [100, 125, 200, 250, 500]:
+        ks = [k for k in range(1, n + 1) if (k * 1000) % n == 0]
         if ctx.quick and n > 100:      # every k for n <= 100 (253 vectors); a seed-dependent sample beyond in the quick tier
             ks = rng.sample(ks, min(len(ks), 6))
         for k in ks:
@@ -68,11 +68,15 @@ def variants_boundary_vectors(ctx):
         return {"cmd": "variants", "anno": "gb", "append": False, "s": -1, "e": -1, "agg": agg, "thr": thr, "t": 2, "stdin": False}
 
     out = []
-    for n in (20, 50, 100):
-        ks = [k for k in range(1, n) if (k * 1000) % n == 0]
-        if ctx.quick:
-            ks = rng.sample(ks, min(len(ks), 25))
-        for k in ks:
+    # every n up to 64 (and 100, 125) for which some k/n is a multiple of 0.001, k = n (threshold 1) included: the places where
+    # k/n, k*(1/n), threshold*n or their roundings can fall on the wrong side
+    combos = [(k, n) for n in list(range(2, 65)) + [100, 125] for k in range(1, n + 1) if (k * 1000) % n == 0]
+    if ctx.quick:
+        small = [c for c in combos if c[1] <= 64]
+        big = [c for c in combos if c[1] > 64]
+        combos = small + rng.sample(big, min(len(big), 20))
+    for k, n in combos:
+        if True:
             qs = []
             for i in range(n):
                 s = list(GENOME)
